@@ -504,11 +504,12 @@ def run_calibration(scheduler, nworkers, islands=2, order=None, seed=3):
             with dask.config.set(**kw):
                 res = pyxel.run_mode(cal, det, pipe, with_inherited_coords=True)
                 out = {}
-                for name in ("champion_fitness", "champion_decision", "champion_parameters", "best_fitness",
-                             "best_decision", "best_parameters"):
-                    for node in res.subtree:
-                        if name in node.data_vars:
-                            out[name] = np.asarray(node[name].values).round(12).tolist()
+                for node in res.subtree:
+                    if node.name in ("champion", "best"):
+                        for vname, v in node.data_vars.items():
+                            out[f"{node.name}/{vname}"] = np.asarray(v.values).round(12).tolist()
+                if len(out) < 4:
+                    raise RuntimeError(f"vacuous calibration harness: result exposes only {sorted(out)}")
         finally:
             if restore:
                 restore()
